@@ -109,6 +109,12 @@ FixGrid ==
                FunDef("f", <<Arg("n", TInt(2)), Arg("a", TFix(l[1], l[2]))>>, <<Ret(Bin("Mult", A, Name("n")))>>, TFix(l[1], l[2]))}
               \cup {FunDef("f", FSig1(l), <<Assign("k", CI(k)), Ret(Bin("Mult", Name("k"), A))>>, TFix(l[1], l[2])) : k \in 0..3}
               \cup {FunDef("f", FSig1(l), <<Assign("k", CI(k)), Ret(Bin("Mult", A, Name("k")))>>, TFix(l[1], l[2])) : k \in 0..3} : l \in Layouts}
+  \* a fixed point value handed over in ANOTHER layout: returned as a wider / narrower / shifted declared type, passed through a local
+  \cup UNION {{FunDef("f", FSig1(lp[1]), <<Ret(A)>>, TFix(lp[2][1], lp[2][2])),
+               FunDef("f", FSig1(lp[1]), <<Assign("u", A), Ret(IfE(Cmp("Gt", U, CF(1, 2)), U, A))>>, TFix(lp[2][1], lp[2][2])),
+               FunDef("f", FSig1(lp[1]), <<Ret(Bin("Add", A, CF(1, 4)))>>, TFix(lp[2][1], lp[2][2])),
+               FunDef("f", <<Arg("a", TFix(lp[1][1], lp[1][2])), Arg("c", TBool)>>, <<Ret(Tup(<<A, Cc>>))>>, TTup(<<TFix(lp[2][1], lp[2][2]), TBool>>))}
+              : lp \in {q \in (Layouts \cup {<<3, 2>>, <<1, 4>>}) \X (Layouts \cup {<<3, 2>>, <<1, 4>>}) : q[1] # q[2]}}
 \* characters compared with integers and characters of every width class (ord(c) == 10: the literal is a Qint4)
 CharGrid ==
   {FunDef("f", <<Arg("c", [t |-> "char", w |-> 8])>>, <<Ret(Cmp(op, Call1("ord", Name("c")), CI(k)))>>, TBool) : op \in {"Eq", "NotEq"}, k \in {0, 3, 10, 42, 97, 200}}
